@@ -76,6 +76,36 @@ def one_case(V, E, X):
         if got[0] == 'ok' and got[1] is internal:
             forms_bad.append('the result IS the internal successor set of %r' % (v,))
     obs['argument_forms'] = forms_bad
+    # results belong to the caller: editing one (through the public API) must change neither G nor what the SAME call
+    # returns next time (a memoised / shared result object would show up here)
+    rep_bad = []
+    xs = list(X)
+    for nm, op in (('rev', lambda: G.get_reversed_graph()), ('sub', lambda: G.get_subgraph(list(xs))), ('clone', lambda: G.clone())):
+        a = call(op)
+        if a[0] != 'ok' or tuple(obs[nm]) != ('ok', gset(a[1])):
+            if a[0] == 'ok' or tuple(obs[nm]) != tuple(a):
+                rep_bad.append('%s: second call differs from the first' % nm)
+            continue
+        H = a[1]
+        fresh = ('edited', nm)
+        call(lambda: H.add_node(fresh))
+        hn = list(H._next)
+        call(lambda: H.add_edge(hn[0], fresh))
+        if len(hn) > 1:
+            call(lambda: H.add_edge(hn[-1], hn[0]))
+            call(lambda: H.add_edge(hn[0], hn[-1]))
+        b = call(op)
+        if b[0] != 'ok' or b[1] is H or ('ok', gset(b[1])) != tuple(obs[nm]):
+            rep_bad.append('%s: after the caller edited an earlier result, the call returns %s' % (nm, 'the edited object' if b[0] == 'ok' and b[1] is H else (gset(b[1]) if b[0] == 'ok' else b)))
+    if obs['reach'][0] == 'ok':
+        a = call(lambda: G.get_reachable_set_from(list(xs)))
+        if a[0] == 'ok':
+            a[1].add(('edited', 'reach'))
+            a[1].difference_update(list(G._next)[:1])
+            b = call(lambda: G.get_reachable_set_from(list(xs)))
+            if b[0] != 'ok' or sorted(map(repr, b[1])) != sorted(map(repr, obs['reach'][1])):
+                rep_bad.append('reach: after the caller edited an earlier result, the call returns %s' % (sorted(map(repr, b[1])) if b[0] == 'ok' else (b,)))
+    obs['results_independent'] = rep_bad
     obs['unchanged'] = (snap(G) == s0 and ids(G) == i0)
     return G, obs
 
@@ -315,6 +345,8 @@ def run(R):
             bad.append('G modified')
         if obs.get('argument_forms'):
             bad.append('argument forms: ' + '; '.join(obs['argument_forms']))
+        if obs.get('results_independent'):
+            bad.append('results not independent: ' + '; '.join(obs['results_independent']))
         if bad:
             R.violation('graph operation differs from the proved model: %s' % ','.join(bad),
                         {'V': V, 'E': E, 'X': X, 'impl': obs, 'model': m, 'differs': bad})
@@ -348,5 +380,6 @@ def replay(R, data):
     print('model:', o)
     m_reach = ('ok', sorted(ints(o[0][1]))) if o[0][0] == 'ok' else ('err', o[0][1])
     if tuple(obs['reach']) != m_reach or tuple(obs['rev']) != ('ok', mset(o[1])) or tuple(obs['sub']) != ('ok', mset(o[2])) \
-            or tuple(obs['clone']) != ('ok', mset(o[3])) or not obs['unchanged'] or obs.get('clone_shares'):
+            or tuple(obs['clone']) != ('ok', mset(o[3])) or not obs['unchanged'] or obs.get('clone_shares') \
+            or obs.get('argument_forms') or obs.get('results_independent'):
         R.violation('replayed', d)
